@@ -252,7 +252,11 @@ def run(chk):
         pool["bad"].append(c12gen.malform(rng, rng.choice(pool["ok"] + pool["unsched"])))
     corpus = [c["text"] for c in F21_cases()]
     n_probe = 14 if quick else 60
-    probes = corpus + [rng.choice(pool["ok"]) for _ in range(n_probe // 2)] + [rng.choice(pool["unsched"]) for _ in range(n_probe - n_probe // 2)]
+    # projects in which the written order of alternatives / team members / dependencies decides the schedule: any detour
+    # through an unordered container shows as a difference between hash seeds
+    order_texts = [c12gen.gen_order_sensitive(rng, pid=f"q{i}") for i in range(5 if quick else 30)]
+    pool["ok"] += order_texts
+    probes = corpus + order_texts + [rng.choice(pool["ok"]) for _ in range(n_probe // 2)] + [rng.choice(pool["unsched"]) for _ in range(n_probe - n_probe // 2)]
     probes = list(dict.fromkeys(probes))
     all_texts = list(dict.fromkeys(pool["ok"] + pool["unsched"] + probes))
 
@@ -260,7 +264,8 @@ def run(chk):
     ref_jobs = []
     ref_keys = []
     for t in all_texts:
-        for cfg, seed in ((("native", "0"), ("native", "random"), ("pure", "0")) if t in probes else (("native", "0"),)):
+        for cfg, seed in ((("native", "0"), ("native", "1"), ("native", "12345"), ("native", "random"), ("pure", "0")) if t in order_texts
+                          else (("native", "0"), ("native", "random"), ("pure", "0")) if t in probes else (("native", "0"),)):
             ref_keys.append((t, cfg, seed))
             ref_jobs.append((cfg, [jline({"op": "hidden_probe", "probe": t, "again": 0, "outdir": outdir, "struct": True})], {"PYTHONHASHSEED": seed}))
     # features of every text (an instrumented run alone in a fresh process)
